@@ -1,14 +1,17 @@
 (* Props/C20.v — property C20: tracing logs are attributed to the scenario and step that emitted them. *)
 From CV Require Import Model.Base Model.Tracing Model.TracingStart Proofs.BaseP Proofs.TracingP.
 From CV Require Proofs.TracingP2 Proofs.TracingP3.
+From CV Require Model.TracingAttr Proofs.TracingAttrP.
 
 (* WHAT THESE THEOREMS DO NOT SAY (review finding H3). The label `TEmit sc m x` already names the scenario `sc` a message
    belongs to; the model has no table from spans to scenarios (the real layer finds the scenario id in the span's
    extensions and the collector maps it to feature / rule / scenario / retries). So "to the scenario it was emitted for"
    below means: the forwarder does not CHANGE the attribution it was handed, loses nothing, duplicates nothing, reorders
-   nothing and delivers before the result. WHICH scenario a span belongs to is decided on the real code only: the
-   harness makes every message name its own scenario, attempt and step, and Check/C20Check.v compares that with the
-   scenario / attempt of the Log event it arrives in. C20 is claimed as partial for this reason. *)
+   nothing and delivers before the result. WHICH scenario an event belongs to is the subject of a second model,
+   Model/TracingAttr.v (span tree, `scope_lookup` = the id of the OUTERMOST span of the event's scope that carries one,
+   the collector's registry, the broadcast of unknown ids): the theorems at the end of this file are about it, and
+   Check/C20bCheck.v compares its lookup with the id the REAL `format_event` resolved for every formatted event
+   (trace points of hook 921cc91). The two models are not composed in Coq: C20 stays partial. *)
 
 (* for every interleaving of step tasks and forwarder (every label list): when a step's result event is emitted,
    every log sent inside its span has already been forwarded, to the scenario it was emitted for *)
@@ -101,3 +104,79 @@ Print Assumptions C20_waiter_is_released.
 Theorem C20_forwarder_runs_never_block :
   forall k s, exists s' o, texec s (repeat TFwd k) = Some (s', o).
 Proof. exact TracingP3.texec_fwd_total. Qed.
+
+
+(* ---------- WHICH SCENARIO (review finding H3): the attribution model Model/TracingAttr.v ----------
+   `tbl`: the spans the cucumber layer has seen (parent, own scenario id if any); `scope_lookup t (Some x)`: what
+   `format_event` resolves for an event whose scope starts at span x; `top_span t a k`: span a carries id k and nothing
+   above it carries one (how the runner creates the span of a scenario attempt); `below t x a`: x is a or a descendant
+   of a, at any depth, through spans with or without ids of their own (user spans, the spans of a NESTED runner). *)
+Theorem C20_lookup_is_the_outermost_id :
+  forall t x k, TracingAttrP.wf_tbl t ->
+    (TracingAttr.scope_lookup t (Some x) = Some k <-> exists a, TracingAttrP.below t x a /\ TracingAttrP.top_span t a k).
+Proof. exact TracingAttrP.lookup_some_iff. Qed.
+Print Assumptions C20_lookup_is_the_outermost_id.
+
+Theorem C20_lookup_unknown_iff_no_id_on_the_path :
+  forall t x, TracingAttrP.wf_tbl t ->
+    (TracingAttr.scope_lookup t (Some x) = None <->
+     forall y sy, TracingAttrP.below t x y -> alookup y t = Some sy -> TracingAttr.sp_sid sy = None).
+Proof. exact TracingAttrP.lookup_none_iff. Qed.
+Print Assumptions C20_lookup_unknown_iff_no_id_on_the_path.
+
+(* THE ATTRIBUTION THEOREM: an event logged anywhere below the span of a registered attempt of scenario sc resolves to that
+   attempt's id and is delivered exactly once, to (sc, rt) — never to another scenario, whatever ids the spans in between
+   carry (nested scenario spans included) *)
+Theorem C20_attribution :
+  forall t reg a sid sc rt x,
+    TracingAttrP.wf_tbl t -> TracingAttrP.top_span t a sid -> alookup sid reg = Some (sc, rt) ->
+    TracingAttrP.below t x a ->
+    TracingAttr.scope_lookup t (Some x) = Some sid /\
+    TracingAttr.recipients reg (TracingAttr.scope_lookup t (Some x)) = [(sc, rt)].
+Proof. exact TracingAttrP.attribution. Qed.
+Print Assumptions C20_attribution.
+
+(* ... along every history of the shape the layer sees (fresh spans, known parents, ids given at creation): a top span stays
+   a top span, whatever is created later *)
+Theorem C20_attribution_along_every_history :
+  forall pre post a sid x sc rt,
+    TracingAttr.shaped (pre ++ post) = true ->
+    TracingAttrP.top_span (TracingAttr.tbl_of pre) a sid ->
+    let st := TracingAttr.arun (pre ++ post) in
+    TracingAttrP.below (TracingAttr.a_tbl st) x a ->
+    alookup sid (TracingAttr.a_reg st) = Some (sc, rt) ->
+    TracingAttr.scope_lookup (TracingAttr.a_tbl st) (Some x) = Some sid /\
+    TracingAttr.recipients (TracingAttr.a_reg st) (TracingAttr.scope_lookup (TracingAttr.a_tbl st) (Some x)) = [(sc, rt)].
+Proof. exact TracingAttrP.attribution_history. Qed.
+Print Assumptions C20_attribution_along_every_history.
+
+(* the broadcast rule, which is what makes a wrongly resolved id visible: an id that is not registered (or no id at all)
+   sends a copy to EVERY registered scenario *)
+Theorem C20_unregistered_id_is_broadcast :
+  forall t reg scope k,
+    TracingAttr.scope_lookup t scope = Some k -> alookup k reg = None ->
+    TracingAttr.recipients reg (TracingAttr.scope_lookup t scope) = map snd reg.
+Proof. exact TracingAttrP.broadcast_unregistered. Qed.
+Print Assumptions C20_unregistered_id_is_broadcast.
+
+(* what an ACCEPTED observation guarantees: the id the real code resolved is the model's lookup, and a harness message of
+   scenario sc logged at or below the span of a registered attempt was resolved to that attempt's id, which stands for sc *)
+Theorem C20_accepted_run_resolves_like_the_model :
+  forall pre scope resolved post,
+    TracingAttr.attr_ok (pre ++ TracingAttr.AFmt scope resolved :: post) = true ->
+    resolved = TracingAttr.scope_lookup (TracingAttr.tbl_of pre) scope /\
+    forall sc m, TracingAttr.a_pending (TracingAttr.arun pre) = Some (sc, m) ->
+      exists k rt, resolved = Some k /\ alookup k (TracingAttr.a_reg (TracingAttr.arun pre)) = Some (sc, rt).
+Proof. exact TracingAttrP.attr_ok_fmt. Qed.
+Print Assumptions C20_accepted_run_resolves_like_the_model.
+
+Theorem C20_monitor_agrees_with_attribution :
+  forall pre post x resolved a sid sc m sc' rt',
+    TracingAttr.attr_ok (pre ++ TracingAttr.AFmt (Some x) resolved :: post) = true ->
+    TracingAttr.stream_wf pre = true ->
+    TracingAttr.a_pending (TracingAttr.arun pre) = Some (sc, m) ->
+    TracingAttrP.top_span (TracingAttr.tbl_of pre) a sid -> TracingAttrP.below (TracingAttr.tbl_of pre) x a ->
+    alookup sid (TracingAttr.a_reg (TracingAttr.arun pre)) = Some (sc', rt') ->
+    resolved = Some sid /\ sc' = sc.
+Proof. exact TracingAttrP.monitor_agrees_with_attribution. Qed.
+Print Assumptions C20_monitor_agrees_with_attribution.
